@@ -59,7 +59,7 @@ def resolve_names(node):
         binding = get_binding(node.id, node.namespace)
         binding.add_reference(node)
 
-        if isinstance(node.ctx, ast.Store) and isinstance(node.namespace, ast.ClassDef):
+        if isinstance(node.ctx, (ast.Store, ast.Del)) and isinstance(node.namespace, ast.ClassDef):
             binding.disallow_rename()
 
             # A name assigned in a class body is looked up in the class namespace and then in the
